@@ -123,6 +123,47 @@ fn big_cfg(rng: &mut Rng, i: u64) -> BuildCfg {
     cfg
 }
 
+/// every compression type with every level it accepts (the random configurations reach a given
+/// (type, level) pair only now and then), each over an empty, a one-byte and a page-sized file
+fn ladder() -> Vec<Option<(String, i64)>> {
+    let mut v: Vec<Option<(String, i64)>> = vec![None, Some(("none".into(), 0))];
+    for l in 0..=9 {
+        v.push(Some(("gzip".into(), l)));
+        v.push(Some(("xz".into(), l)));
+    }
+    for l in 1..=9 {
+        v.push(Some(("bzip2".into(), l)));
+    }
+    for l in -7..=22 {
+        v.push(Some(("zstd".into(), l)));
+    }
+    v
+}
+
+fn ladder_cfg(rng: &mut Rng, k: usize) -> BuildCfg {
+    let mut cfg = gen_cfg(rng, &GenOpts { max_files: 0, ..Default::default() });
+    cfg.files.clear();
+    for (j, size) in [0usize, 1, 4096, 0].into_iter().enumerate() {
+        cfg.files.push(FileCfg {
+            dest: format!("/opt/ladder/{k}-{j}.dat"),
+            content_kind: "text".into(),
+            size,
+            content_seed: rng.next(),
+            mode: Some(0o100644),
+            source_perm: 0o644,
+            user: None,
+            group: None,
+            flags: vec![],
+            caps: None,
+            symlink: None,
+            mtime: 1_500_000_000,
+            verify: None,
+        });
+    }
+    cfg.compression = ladder()[k].clone();
+    cfg
+}
+
 fn run(ctx: &Ctx, rep: &Report) {
     let keys = match load_keys(&ctx.repo_dir) {
         Ok(k) => k,
@@ -131,12 +172,19 @@ fn run(ctx: &Ctx, rep: &Report) {
             return;
         }
     };
-    let n: u64 = ctx.tier.pick(64, 4000);
+    let nl = ladder().len() as u64;
+    let n: u64 = nl + ctx.tier.pick(64, 4000);
     let base = ctx.work_dir("build");
     par_for(ctx.threads, n, 1, |i| {
         let mut rng = Rng::for_case(ctx.seed, "C08", i);
-        let big = i % 4 != 3;
-        let mut cfg = if big { big_cfg(&mut rng, i) } else { gen_cfg(&mut rng, &GenOpts { max_files: 8, ..Default::default() }) };
+        let big = i >= nl && i % 4 != 3;
+        let mut cfg = if i < nl {
+            ladder_cfg(&mut rng, i as usize)
+        } else if big {
+            big_cfg(&mut rng, i)
+        } else {
+            gen_cfg(&mut rng, &GenOpts { max_files: 8, ..Default::default() })
+        };
         if big {
             // avoid the very slow level/size combinations in the quick tier
             if let (Some((t, l)), false) = (&mut cfg.compression, ctx.tier.pick(false, true)) {
@@ -167,6 +215,9 @@ fn run(ctx: &Ctx, rep: &Report) {
                         Ok(Err(e)) => rep.violation(format!("emitted-package-unreadable:{}", crate::util::par::normalize_msg(&e)), format!("{}: {e}", it.label), w(&it.label), it.bytes.len() as u64),
                         Err(p) => rep.inconclusive(format!("oracle panicked: {}", p.message)),
                     }
+                }
+                if i < nl {
+                    *local.entry("ladder_configs(type x level)".into()).or_insert(0) += 1;
                 }
                 *local.entry(format!("compressor.{}", cfg.compression.as_ref().map(|c| c.0.as_str()).unwrap_or("default"))).or_insert(0) += 1;
                 let total: usize = cfg.files.iter().map(|f| f.size).sum();
